@@ -7,7 +7,6 @@ import (
 	"context"
 	"errors"
 	"fmt"
-	"path"
 	"slices"
 	"strings"
 	"time"
@@ -694,7 +693,9 @@ func (ps *Store) sanitizeName(name string) string {
 }
 
 func (ps *Store) cacheKey(ns *namespace.Namespace, name string) string {
-	return path.Join(ns.UUID, name)
+	// Do not use path.Join here: it cleans the result, so a name containing
+	// ".." elements would yield the key of a policy in another namespace.
+	return ns.UUID + "/" + name
 }
 
 // LoadDefaultPolicies loads default policies for the namespace in the provided context
